@@ -280,6 +280,8 @@ func (w *World) Exec(a Action) (res string, errStr string) {
 		default:
 			ack = channeltypes.NewResultAcknowledgement([]byte(fmt.Sprint("verif-ack-", a.Ack)))
 		}
+		// what the application writes here is, abstractly, a.Ack
+		w.ackDict["v1/"+lib.Hex(sh(ack.Acknowledgement()))] = a.Ack
 		cacheCtx, write := ctx.CacheContext()
 		err := chain.App.GetIBCKeeper().ChannelKeeper.WriteAcknowledgement(cacheCtx, p, ack)
 		if err == nil {
